@@ -61,9 +61,10 @@ def floatOps : FloatOps Float where
   recvRate total dt := toU32 (fclamp (natF total / (natF dt / 1000.0)) 0.0 u32maxF)
   lossRate := computeLossRate
   lossResetLen p := toU32 (fclamp (1.0 / p) 0.0 u32maxF).round
-  fillBytes rate dt :=
+  fillBytes rate dt frac :=
     let secs := natF (dt / 1000000000) + natF (dt % 1000000000) / natF 1000000000
-    (natF rate * secs).round.toInt64.toInt
+    let x := natF rate * secs + frac
+    (x.floor.toInt64.toInt, x - x.floor)
   fillMax rate rtt := (natF rate * (match rtt with | some r => r | none => 0.0)).round.toInt64.toInt
 
 end Uflow.Driver
